@@ -1,0 +1,7 @@
+//go:build !verif
+
+package generate
+
+// Verification hooks (see verif_on.go); no-ops unless built with -tags verif.
+
+func verifImport(pkgPath, alias string) {}
